@@ -249,6 +249,8 @@ def signature_obligations(check):
             if bad:
                 ob.detail = '; '.join(w for _, w in bad[:3])
                 adjudicate_signature(check, low, ob, bad[0][0], canon, T)
+        if T == 'long double':
+            long_double_accessors(check, Q, T)
     check.extra['signature_members_checked'] = total
     if total < 4000:
         check.error('must-fire: expected >= 4000 members under the signature obligation, found %d' % total)
@@ -290,3 +292,87 @@ def adjudicate_signature(check, low, ob, f, canon, T):
     except Exception as e:
         rec['replay_error'] = '%s: %s' % (type(e).__name__, e)
     check.violations.append((ob, write_replay(check, ob, rec), '' if rec['confirmed'] else 'no-failing-input-found'))
+
+
+def long_double_accessors(check, Q, T):
+    """long double has no bit-precise model: the accessors and mutators of the long double instantiation are executed
+    symbolically - Value() returns the stored components, SetValue(v) / Set_<c>(v) store exactly v in the slot named and
+    leave the others, component getters return their slot - and nothing is narrowed below long double on the way."""
+    from ..symex import SymEx
+    from ..realob import SymCall, leaves
+    low = Q.low
+    n_ob = 0
+    seen_tmpl = set()
+    targets = []
+    for canon, r in sorted(low.records.items()):
+        if not (r.targs and r.targs[-1] == T):
+            continue
+        if r.template in BASES or r.template in TENSORS:
+            if r.template in BASES and r.template in seen_tmpl:
+                continue
+            seen_tmpl.add(r.template)
+            targets.append((canon, r))
+    for canon, r in targets:
+        comps = None
+        if r.template in TENSORS:
+            comps = r.fields[0][0].rstrip('_').split('_')
+        bad = []
+        n = 0
+        for f in Q.methods(canon):
+            nm = f.node.get('name')
+            np_ = len(f.params)
+            kind = None
+            if nm == 'Value' and np_ == 1:
+                kind = 'get-all'
+            elif nm == 'SetValue' and np_ == 2:
+                kind = 'set-all'
+            elif comps and re.match(r'^Set_(\w+)$', nm) and np_ == 2 and sym_index(comps, nm[4:]) is not None:
+                kind = ('set', sym_index(comps, nm[4:]))
+            elif comps and f.kind == 'method' and np_ == 1 and sym_index(comps, nm) is not None and f.ret[0] == 'f':
+                kind = ('get', sym_index(comps, nm))
+            if kind is None:
+                continue
+            try:
+                S = SymEx(low)
+                sc = SymCall(low, f, symex=S)
+            except Unsupported:
+                continue
+            n += 1
+            pre = leaves(sc.pre[f.params[0][0]])
+            post = leaves(sc.post[f.params[0][0]])
+            why = None
+            if kind == 'get-all':
+                if leaves(sc.ret) != pre:
+                    why = 'does not return the stored components'
+            elif kind == 'set-all':
+                if post != leaves(sc.pre[f.params[1][0]]):
+                    why = 'does not store exactly the value given'
+            elif kind[0] == 'set':
+                v = leaves(sc.pre[f.params[1][0]])[0]
+                want = list(pre)
+                want[kind[1]] = v
+                if post != want:
+                    why = 'does not store exactly the value given in slot %d (or touches another slot)' % kind[1]
+            else:
+                if leaves(sc.ret) != [pre[kind[1]]]:
+                    why = 'does not return slot %d' % kind[1]
+            if why is None and S.narrow_bad:
+                why = 'narrows a %s value to %s' % (S.narrow_bad[0][1], S.narrow_bad[0][0])
+            if why:
+                bad.append('%s %s' % (f.qualname, why))
+            check.under_contract(f)
+        if n == 0:
+            continue
+        ob = Ob('C17.ld.%s' % (r.template), 'REAL', canon, None)
+        ob.backend = 'phqv symex (term identity + precision audit)'
+        ob.text = 'long double instantiation of %s: %d accessors / mutators read and write exactly the stored slots (term identity over all values) and narrow nothing' % (r.template, n)
+        ob.status = 'discharged' if not bad else 'failed'
+        check.add(ob)
+        n_ob += n
+        if bad:
+            ob.detail = '; '.join(bad[:3])
+            rec = {'property': 'C17', 'obligation': ob.name, 'function': canon, 'verifier_output': ob.detail, 'confirmed': False}
+            check.violations.append((ob, write_replay(check, ob, rec), 'no-failing-input-found'))
+    check.extra['long_double_accessors_checked'] = n_ob
+    if n_ob < 60:
+        check.error('must-fire: expected >= 60 long double accessors / mutators, found %d' % n_ob)
